@@ -14,7 +14,7 @@ Model of `pyyeti.nastran.n2p.formrbe3` (property C14), including the `UM_List` v
 * `umIndep`, `umMixed`      the two re-partitions of `formrbe3` for an m-set inside the independent set
                             (`solve(rbe3_um, [I, -rbe3_n])`) and for a mixed m-set (`A B C D` blocks);
 * `umPlan`                  the DOF bookkeeping (`mat_intersect`, `index2bool`, `flippv`, the two
-                            truth tests on index arrays) as exact `Nat`-list code;
+                            emptiness tests `dpv_m.size == 0`, `ipv_m.size == 0`) as exact `Nat`-list code;
 * `formRbe3`                everything together on lists (what `Drivers/C14.lean` runs at `Float`).
 
 `solve` is the external kernel `scipy.linalg.solve`: a parameter.  The theorems quantify over every
@@ -175,9 +175,6 @@ def complIdx (pv : List Nat) (n : Nat) : List Nat := (List.range n).filter fun i
 /-- `index2bool(pv, n)` as an ascending index list -/
 def maskIdx (pv : List Nat) (n : Nat) : List Nat := (List.range n).filter fun i => pv.contains i
 
-/-- Python truth test `arr.any()` on an index array: some index is non-zero -/
-def anyNonzero (pv : List Nat) : Bool := pv.any (· != 0)
-
 inductive UmBranch where
   | indep | dep | mixed
   deriving DecidableEq, Repr
@@ -199,7 +196,7 @@ DOF that is not independent). -/
 def umPlan (ddof idof mdof : List Nat) (nuset : Nat) : Option UmPlan :=
   let key (l : List Nat) (i : Nat) : Nat := l.getD i 0
   let dpv := positions ddof mdof
-  if !anyNonzero dpv then
+  if dpv.isEmpty then
     -- "this works when the m-set is a subset of the independent set"
     if mdof.all idof.contains then
       let mpv := positions idof mdof
@@ -209,7 +206,7 @@ def umPlan (ddof idof mdof : List Nat) (nuset : Nat) : Option UmPlan :=
     else none
   else
     let ipv := positions idof mdof
-    if !anyNonzero ipv then
+    if ipv.isEmpty then
       some ⟨.dep, dpv, [], [], [], List.range dpv.length, List.range idof.length⟩
     else
       let dm := maskIdx dpv ddof.length
@@ -229,24 +226,36 @@ def idxMap (l : List Nat) (n : Nat) (h : 0 < n) : Fin l.length → Fin n :=
 section lists
 variable {α : Type} [Add α] [Sub α] [Mul α] [Div α] [Neg α] [OfNat α 0] [OfNat α 1]
 
-/-- apply a plan to the `nd × ni` matrix `R` -/
-def umApply (solve : Solver α) {nd ni : Nat} (hd : 0 < nd)
-    (hi : 0 < ni) (R : Mx α nd ni) (p : UmPlan) : Option (List (List α)) :=
-  let reorder (X : List (List α)) : List (List α) :=
-    p.rowOrd.map fun i => p.colOrd.map fun j => (X.getD i []).getD j 0
+/-- `Y[ro][:, co]` -/
+def Mx.reorder {a b : Nat} (Y : Mx α a b) (ha : 0 < a) (hb : 0 < b) (ro co : List Nat) :
+    Mx α ro.length co.length :=
+  (Y.selRows (idxMap ro a ha)).selCols (idxMap co b hb)
+
+/-- apply a plan to the `nd × ni` matrix `R`: the matrix of the branch, rows and columns reordered -/
+def umApplyMx (solve : Solver α) {nd ni : Nat} (hd : 0 < nd)
+    (hi : 0 < ni) (R : Mx α nd ni) (p : UmPlan) : Option (Mx α p.rowOrd.length p.colOrd.length) :=
   if !(p.dm ++ p.dn).all (· < nd) || !(p.im ++ p.inn).all (· < ni) then none else
   match p.branch with
-  | .dep => some (reorder (R.selRows (idxMap p.dm nd hd)).toLists)
+  | .dep =>
+    if h : 0 < p.dm.length then
+      some ((R.selRows (idxMap p.dm nd hd)).reorder h hi p.rowOrd p.colOrd)
+    else none
   | .indep =>
     if h : p.im.length = nd then
-      some (reorder (umIndep solve R (fun i => idxMap p.im ni hi (Fin.cast h.symm i))
-        (idxMap p.inn ni hi)).mx.toLists)
+      some ((umIndep solve R (fun i => idxMap p.im ni hi (Fin.cast h.symm i))
+        (idxMap p.inn ni hi)).mx.reorder hd (Nat.add_pos_left hd _) p.rowOrd p.colOrd)
     else none
   | .mixed =>
-    if h : p.dn.length = p.im.length then
-      some (reorder (umMixed solve R (idxMap p.dm nd hd)
-        (fun i => idxMap p.dn nd hd (Fin.cast h.symm i)) (idxMap p.im ni hi) (idxMap p.inn ni hi)).mx.toLists)
+    if h : p.dn.length = p.im.length ∧ 0 < p.im.length then
+      some ((umMixed solve R (idxMap p.dm nd hd)
+        (fun i => idxMap p.dn nd hd (Fin.cast h.1.symm i)) (idxMap p.im ni hi)
+        (idxMap p.inn ni hi)).mx.reorder (Nat.add_pos_right _ h.2) (Nat.add_pos_left h.2 _)
+        p.rowOrd p.colOrd)
     else none
+
+def umApply (solve : Solver α) {nd ni : Nat} (hd : 0 < nd)
+    (hi : 0 < ni) (R : Mx α nd ni) (p : UmPlan) : Option (List (List α)) :=
+  (umApplyMx solve hd hi R p).map Mx.toLists
 
 variable [OfNat α 180] [TransOps α] [LT α] [∀ a b : α, Decidable (a < b)]
 
